@@ -415,6 +415,25 @@ impl Archetype {
     }
 }
 
+#[cfg(hecs_verif)]
+impl Archetype {
+    /// Snapshot of this archetype's bookkeeping
+    pub fn verif_dump(&self) -> crate::verif::ArchetypeDump {
+        crate::verif::ArchetypeDump {
+            types: self
+                .types
+                .iter()
+                .map(|t| (t.id, t.layout.size(), t.layout.align()))
+                .collect(),
+            len: self.len,
+            capacity: self.entities.len() as u32,
+            ids: self.entities[0..(self.len as usize).min(self.entities.len())].to_vec(),
+            bases: self.data.iter().map(|d| d.storage.as_ptr() as usize).collect(),
+            borrow: self.data.iter().map(|d| d.state.verif_raw()).collect(),
+        }
+    }
+}
+
 impl Drop for Archetype {
     fn drop(&mut self) {
         self.clear();
